@@ -308,7 +308,7 @@ static AIToolbox::POMDP::Belief mkBelief(const Core & c, const std::vector<size_
 
 static const long kWitness = 4;
 
-long verif::verif_ncases(const std::string & tier) { return kWitness + (tier == "thorough" ? 9000 : 700); }
+long verif::verif_ncases(const std::string & tier) { return kWitness + (tier == "thorough" ? 9000 : 2000); }
 
 void verif::verif_case(Rng & rng, long idx, const std::string & tier) {
     bool witness = idx < kWitness;
